@@ -170,7 +170,7 @@ def s2_s5_line_walk(ck):
     # the walk ends only where there is nothing more to follow: at the depth limit, at a position without an entry, or when the stored
     # move cannot be applied.  Any further reason to stop (e.g. the kind of the entry) can cut the line at the root and leave nothing
     # to report although the root has an entry and a legal move.
-    nones = [p for p in paths if p.ret == ("agg", "core::option::Option::None", ())]
+    nones = [p for p in paths if p.ret == ("agg", "core::option::Option::None", ()) or (p.ret[0] == "call" and p.ret[1].endswith("::from_residual"))]
     ck.floor("S2", len(nones), 2, "ending paths of the principal-line iterator")
     for p in nones:
         last = p.conds[-1] if p.conds else None
@@ -186,7 +186,9 @@ def s2_s5_line_walk(ck):
             elif c[0] == "discr" and any(is_call(x, APPLY) for x in walk(c)):
                 ok = True      # stored move not applicable
             elif c[0] == "discr" and is_call(c[1], "Try>::branch"):
-                ok = True      # `?` on find / by_performing_move
+                inner = c[1][2][0]
+                # `?` on find(..) or on by_performing_move(..).ok()
+                ok = is_call(inner, ACCESS + "::find") or any(is_call(x, APPLY) for x in walk(inner))
         ck.req(ok, "S2.walk_ends", "next@%s" % why[:40], nx.where(),
                "the principal-line walk can stop for a reason other than the depth limit, a missing entry or an inapplicable move (%s): a root whose entry does not "
                "satisfy it yields an empty line and the search ends without reporting" % why)
